@@ -358,6 +358,24 @@ def rule_table_argparse(prog, rep, tier):
                         "emitted calls are read back as extra body statements" if rc.get(fld) else
                         "statements on other receivers (e.g. group.add_argument) are swallowed as interface and dropped from the carried body"),
                     loc(prog, rf.node)))
+    # escape symmetry: a constant str.replace applied to the prose on the way out needs its inverse on the way in
+    def _replaces(nodes):
+        out = []
+        for nd_ in nodes:
+            for c in ast.walk(nd_):
+                if isinstance(c, ast.Call) and isinstance(c.func, ast.Attribute) and c.func.attr == "replace" and len(c.args) >= 2 \
+                        and all(isinstance(a_, ast.Constant) and isinstance(a_.value, str) for a_ in c.args[:2]) \
+                        and any(isinstance(x, ast.Name) and x.id in ("doc", "help", "help_") or isinstance(x, ast.Constant) and x.value in ("doc", "help") for x in ast.walk(c.func.value)):
+                    out.append((c.args[0].value, c.args[1].value, c))
+        return out
+
+    r_repl = {(a_, b_) for a_, b_, _ in _replaces(r_nodes)}
+    for a_, b_, c in _replaces(w_nodes):
+        if (b_, a_) in r_repl:
+            rep.holds("TABLE-argparse", "help text escape %r->%r is undone by the parser" % (a_, b_), loc(prog, c), "")
+        else:
+            rep.violation(Finding("TABLE-argparse", "ast_utils.param2argparse_param", "escape-without-inverse:%r->%r" % (a_, b_),
+                                  "the emitter rewrites the help text with replace(%r, %r) but parse_out_param never applies the inverse: the prose grows/changes on every round trip" % (a_, b_), loc(prog, c)))
     # action / loads constants
     acts_w = set()
     for fi in prog.reachable([w]):
